@@ -73,10 +73,16 @@ type selCase struct {
 type pendingOp struct {
 	kind    opKind
 	enabled func() bool
+	mu      *MutexState
+	rw      *RWState
+	once    *OnceState
+	wg      *WGState
+	cw      *condWaiter
 	ch      *chanState
 	sel     []selCase
 	hasDef  bool
 	desc    string
+	arg     int
 	site    string
 }
 
@@ -148,6 +154,7 @@ type World struct {
 	race *raceState
 
 	userData any
+	enBuf    []*Task
 }
 
 // W is the current world.  Exactly one world exists per process at a time.
@@ -187,6 +194,8 @@ func Execute(cfg Config, body func()) Outcome {
 		fine:        cfg.Fine,
 		trace:       cfg.Trace,
 		fin:         make(chan struct{}),
+		points:      make([]Point, 0, 256),
+		enBuf:       make([]*Task, 0, 16),
 	}
 	if w.stepCap == 0 {
 		w.stepCap = 200000
@@ -404,6 +413,20 @@ func (w *World) opEnabled(t *Task) bool {
 		return false
 	case opSettle, opQuiesce:
 		return false // handled by pick
+	case opLock:
+		if p.mu != nil {
+			return !p.mu.locked
+		}
+		return !p.rw.writer && p.rw.readers == 0
+	case opRLock:
+		return !p.rw.writer
+	case opOnce:
+		return !p.once.running
+	case opWait:
+		if p.wg != nil {
+			return p.wg.n == 0
+		}
+		return p.cw.signalled
 	default:
 		return p.enabled == nil || p.enabled()
 	}
@@ -413,7 +436,7 @@ func (w *World) opEnabled(t *Task) bool {
 // It returns nil when nothing can ever run again.
 func (w *World) pick() *Task {
 	for {
-		var en []*Task
+		en := w.enBuf[:0]
 		curEnabled := false
 		if w.cur != nil && !w.cur.done && w.opEnabled(w.cur) {
 			en = append(en, w.cur)
@@ -427,6 +450,7 @@ func (w *World) pick() *Task {
 				en = append(en, t)
 			}
 		}
+		w.enBuf = en[:0]
 		if len(en) > 0 {
 			timerAlt := w.earlyTimers && w.nextTimer() != nil
 			n := len(en)
@@ -550,7 +574,11 @@ func (w *World) yield(p pendingOp) {
 		}
 	}
 	if w.trace {
-		w.tracef("%s: %s  @%s", t, t.pend.desc, t.pend.site)
+		if t.pend.arg != 0 {
+			w.tracef("%s: %s(%d)  @%s", t, t.pend.desc, t.pend.arg-1, t.pend.site)
+		} else {
+			w.tracef("%s: %s  @%s", t, t.pend.desc, t.pend.site)
+		}
 	}
 }
 
@@ -591,9 +619,19 @@ func Yield(desc string) {
 	W.yield(pendingOp{kind: opSimple, desc: desc})
 }
 
-// Await blocks the running task until pred holds.  obj identifies the object waited on.
+// Await blocks the running task until pred holds.
 func Await(desc string, pred func() bool) {
 	W.yield(pendingOp{kind: opAwait, enabled: pred, desc: desc})
+}
+
+// AwaitN is Await with a numeric argument shown in traces (avoids formatting on the hot path).
+func AwaitN(desc string, n int, pred func() bool) {
+	W.yield(pendingOp{kind: opAwait, enabled: pred, desc: desc, arg: n + 1})
+}
+
+// YieldN is Yield with a numeric argument shown in traces.
+func YieldN(desc string, n int) {
+	W.yield(pendingOp{kind: opSimple, desc: desc, arg: n + 1})
 }
 
 // Settle blocks until no other task can make progress without time passing.
